@@ -3,6 +3,7 @@ package main
 import (
 	"bufio"
 	"bytes"
+	"context"
 	"errors"
 	"fmt"
 	"io"
@@ -320,6 +321,16 @@ func c18round(out *evid.Out, f *evid.Flags, round int, specs []reqSpec) {
 		access2Pos = r.Intn(len(chosen) + 1)
 	}
 	preSeed := r.Chance(1, 3) // some requests arrive with an id already in their context (CtxWithID)
+	// in a third of the rounds every request's context derives from one shared context that already carries a logger
+	// (what http.Server.BaseContext / ConnContext returning appLog.WithContext(ctx) gives): that logger is the
+	// application's and stays as it is; the requests stay isolated
+	var appCtx context.Context
+	appDest := &syncRec{}
+	if round%3 == 1 {
+		appLog := zerolog.New(appDest).With().Str("svc", "app").Logger()
+		appCtx = appLog.WithContext(context.Background())
+		out.Count("rounds_with_a_logger_in_the_base_context", 1)
+	}
 	var accMu sync.Mutex
 	access := map[[2]int]accessRec{}
 	accessCount := map[[2]int]int{}
@@ -441,6 +452,9 @@ func c18round(out *evid.Out, f *evid.Flags, round int, specs []reqSpec) {
 			fmt.Println("HARNESS-ERROR c18:", err)
 			return
 		}
+		if appCtx != nil {
+			req = req.WithContext(appCtx)
+		}
 		req.RemoteAddr = remote
 		req.Host = host
 		req.Proto, req.ProtoMajor, req.ProtoMinor = reqProto(sp.id)
@@ -482,6 +496,12 @@ func c18round(out *evid.Out, f *evid.Flags, round int, specs []reqSpec) {
 	base.Info().Msg("after")
 	if got := string(dest.ev[n0]); got != `{"level":"info","svc":"base","message":"after"}`+"\n" {
 		viol("base-logger-changed", fmt.Sprintf("the logger passed to NewHandler emits %q after serving %d requests", got, len(specs)))
+	}
+	if appCtx != nil {
+		zerolog.Ctx(appCtx).Info().Msg("app")
+		if len(appDest.ev) != 1 || string(appDest.ev[0]) != `{"level":"info","svc":"app","message":"app"}`+"\n" {
+			viol("context-logger-changed", fmt.Sprintf("the logger carried by the requests' parent context emits %q after serving %d requests", appDest.ev, len(specs)))
+		}
 	}
 	// events
 	byReq := map[int][]*jsonv.Node{}
